@@ -8,8 +8,8 @@
 //   - the two claim goroutines (new proofs / retried proofs) are serialised by the mock (the second one is
 //     released only after the first goroutine has exited), the order being an explorer choice;
 //   - Go map iteration decides the order of same-session-id proofs inside one claim; the requested order
-//     (ascending / descending) is an explorer choice and is enforced by re-executing the history from a
-//     fresh server until the real code produced it.
+//     (ascending / descending) is an explorer choice and is enforced by repeating the claim on a copy of the
+//     server (hook VerifClone) until the real code produced it.
 package c29
 
 import (
@@ -1274,7 +1274,7 @@ func init() {
 		}
 		rest := ", snapshot, paymentEvent per proof identity, advanceChainMemory (earliest 20->30->40), crash+restart; plus a restart at every prefix of the DB-operation log"
 		parts := []part{
-			{"c29/retries", "retries", 7, 20 * time.Second, fmt.Sprintf(boundText, "7", "10", "")},
+			{"c29/retries", "retries", 8, 20 * time.Second, fmt.Sprintf(boundText, "7", "10", "")},
 			{"c29/rewards-cu2", "events", 5, 60 * time.Second, fmt.Sprintf(boundText, "7|8", "10|20", rest)},
 		}
 		if ev.Tier() == "thorough" {
